@@ -387,6 +387,35 @@ func opRun(req *wire.Req, resp *wire.Resp) {
 	}
 	resp.RunUs = time.Since(t0).Microseconds()
 	cancel()
+	if resp.Timeout {
+		// the run was still active when it was cancelled: its processes must now stop. Wait (up to
+		// 10 s, normally microseconds) until none of them is running any more, so that late output
+		// does not leak into the next request, and report those that never stop.
+		stopBy := time.Now().Add(10 * time.Second)
+		w := 200 * time.Microsecond
+		for {
+			busy := 0
+			for _, g := range snapshot() {
+				if base[g.id] || !strings.Contains(g.text, "grits/process") {
+					continue
+				}
+				if strings.Contains(g.text, "HeartbeatReceiver") || strings.Contains(g.text, "monitorLoop") || strings.Contains(g.text, "startMonitor") {
+					continue
+				}
+				if classify(g).Kind == "other" {
+					busy++
+				}
+			}
+			resp.BusyAfterCancel = busy
+			if busy == 0 || time.Now().After(stopBy) {
+				break
+			}
+			time.Sleep(w)
+			if w < 20*time.Millisecond {
+				w *= 2
+			}
+		}
+	}
 	if req.PostAPI {
 		resp.ProcCount = re.ProcessCount()
 		resp.DeadCount = re.DeadProcessCount()
